@@ -129,3 +129,19 @@ def coerce_unique_on_raw_data(job, failure) -> bool:
     if not ref or ref[0] != "err":
         return False
     return all(e.get("err") == settings.errors.unique_items for e in ref[1])
+
+
+def draft7_unevaluated_properties(job, failure) -> bool:
+    return (
+        failure.get("kind") == "foreign-vocabulary"
+        and job.get("version") == "draft-07"
+        and "['unevaluatedProperties']" in str(failure.get("detail"))
+    )
+
+
+def oas30_bare_null_type(job, failure) -> bool:
+    return (
+        failure.get("kind") == "foreign-vocabulary"
+        and job.get("version") == "openapi-3.0"
+        and "type null is not OpenAPI 3.0" in str(failure.get("detail"))
+    )
